@@ -639,6 +639,479 @@ theorem coupled_run (answer : Handle → SendResult) {s : State} {H : Hist} (c :
 theorem coupled_after (h : List Op) : Coupled (after h) (Hist.of h) :=
   coupled_run _ coupled_empty h
 
+/-! ### the history reading, characterised declaratively
+
+`Hist.of` is a fold.  The theorems below say what it computes in terms of *positions in the history*:
+`k` is owned by `p` since call `n` iff call `n` is an `alias p k` that was accepted (p present) and
+changed the owner, `p` was not removed afterwards, and no later accepted `alias q k` re-pointed it. -/
+
+theorem snoc_ind {α : Type} {P : List α → Prop} (nil : P []) (snoc : ∀ l a, P l → P (l ++ [a])) :
+    ∀ l, P l := by
+  suffices h : ∀ r : List α, P r.reverse by
+    intro l; simpa using h l.reverse
+  intro r
+  induction r with
+  | nil => simpa using nil
+  | cons a r ih => rw [List.reverse_cons]; exact snoc _ a ih
+
+/-- Where can a one-element split of `h ++ [op]` fall: at the last element, or inside `h`. -/
+theorem snoc_eq_append_cons {α : Type} {h h1 h2 : List α} {op x : α} (e : h ++ [op] = h1 ++ x :: h2) :
+    (h2 = [] ∧ h = h1 ∧ x = op) ∨ (∃ h2', h2 = h2' ++ [op] ∧ h = h1 ++ x :: h2') := by
+  rcases List.eq_nil_or_concat h2 with rfl | ⟨l, b, rfl⟩
+  · left
+    have := List.append_inj' e (by simp)
+    exact ⟨rfl, this.1, by simpa using this.2.symm⟩
+  · right
+    rw [List.concat_eq_append] at e ⊢
+    have e' : h ++ [op] = (h1 ++ x :: l) ++ [b] := by simpa using e
+    have := List.append_inj' e' (by simp)
+    refine ⟨l, ?_, this.1⟩
+    have hb : op = b := by simpa using this.2
+    rw [hb]
+
+theorem Hist.of_snoc (h : List Op) (op : Op) : Hist.of (h ++ [op]) = (Hist.of h).step op := by
+  simp [Hist.of, List.foldl_append]
+
+theorem Hist.step_n (H : Hist) (op : Op) : (H.step op).n = H.n + 1 := by
+  cases op <;> simp only [Hist.step] <;> try rfl
+  split <;> rfl
+
+theorem Hist.of_n (h : List Op) : (Hist.of h).n = h.length := by
+  induction h using snoc_ind with
+  | nil => rfl
+  | snoc l a ih => rw [Hist.of_snoc, Hist.step_n, ih]; simp
+
+/-- `k` has pointed at `p` since call number `n` of history `h` (positions count from 0). -/
+def AssignedSince (h : List Op) (k : Key) (p n : Nat) : Prop :=
+  ∃ h1 h2, h = h1 ++ Op.alias p k :: h2 ∧ h1.length = n ∧
+    (Hist.of h1).present p = true ∧ (Hist.of h1).owner k ≠ some p ∧
+    (∀ op ∈ h2, op ≠ Op.remove p) ∧
+    (∀ h2a q h2b, h2 = h2a ++ Op.alias q k :: h2b →
+      q = p ∨ (Hist.of (h1 ++ Op.alias p k :: h2a)).present q = false)
+
+theorem assignedSince_snoc (h : List Op) (op : Op) (k : Key) (p n : Nat) :
+    AssignedSince (h ++ [op]) k p n ↔
+      (op = Op.alias p k ∧ h.length = n ∧ (Hist.of h).present p = true ∧ (Hist.of h).owner k ≠ some p) ∨
+      (AssignedSince h k p n ∧ op ≠ Op.remove p ∧
+        ∀ q, op = Op.alias q k → q = p ∨ (Hist.of h).present q = false) := by
+  constructor
+  · rintro ⟨h1, h2, e, hn, hp, ho, hrm, hlater⟩
+    rcases snoc_eq_append_cons e with ⟨rfl, rfl, hx⟩ | ⟨h2', rfl, rfl⟩
+    · left; exact ⟨hx.symm, hn, hp, ho⟩
+    · right
+      refine ⟨⟨h1, h2', rfl, hn, hp, ho, fun o ho' => hrm o (by simp [ho']), ?_⟩,
+        hrm op (by simp), ?_⟩
+      · intro h2a q h2b e2
+        exact hlater h2a q (h2b ++ [op]) (by simp [e2])
+      · intro q hq
+        have := hlater h2' q [] (by simp [hq])
+        simpa using this
+  · rintro (⟨rfl, hn, hp, ho⟩ | ⟨⟨h1, h2, rfl, hn, hp, ho, hrm, hlater⟩, hne, hq⟩)
+    · exact ⟨h, [], by simp, hn, hp, ho, by simp, by
+        intro h2a q h2b e2; cases h2a <;> simp at e2⟩
+    · refine ⟨h1, h2 ++ [op], by simp, hn, hp, ho, ?_, ?_⟩
+      · intro o ho'
+        rcases List.mem_append.1 ho' with ho' | ho'
+        · exact hrm o ho'
+        · simp at ho'; rw [ho']; exact hne
+      · intro h2a q h2b e2
+        rcases snoc_eq_append_cons e2 with ⟨rfl, rfl, hx⟩ | ⟨h2b', rfl, rfl⟩
+        · have := hq q hx.symm
+          simpa using this
+        · exact hlater h2a q h2b' rfl
+
+/-- One call, on the history reading alone. -/
+theorem Hist.step_owner_since (H : Hist) (op : Op) (k : Key) (p n : Nat) :
+    ((H.step op).owner k = some p ∧ (H.step op).since k = n) ↔
+      (op = Op.alias p k ∧ H.n = n ∧ H.present p = true ∧ H.owner k ≠ some p) ∨
+      ((H.owner k = some p ∧ H.since k = n) ∧ op ≠ Op.remove p ∧
+        ∀ q, op = Op.alias q k → q = p ∨ H.present q = false) := by
+  cases op with
+  | alias q k' =>
+    simp only [Hist.step]
+    by_cases hk : k' = k
+    · subst hk
+      by_cases hacc : H.present q = true ∧ H.owner k' ≠ some q
+      · simp only [hacc, and_self, if_true, ne_eq, not_false_eq_true]
+        simp only [Op.alias.injEq, and_true]
+        constructor
+        · rintro ⟨e, hn⟩
+          have e : q = p := Option.some.inj e
+          subst e
+          exact Or.inl ⟨rfl, hn, hacc.1, hacc.2⟩
+        · rintro (⟨rfl, hn, _, _⟩ | ⟨⟨ho, _⟩, _, hq⟩)
+          · exact ⟨rfl, hn⟩
+          · rcases hq q rfl with rfl | hq
+            · exact absurd ho hacc.2
+            · rw [hacc.1] at hq; cases hq
+      · simp only [hacc, if_false, Op.alias.injEq, and_true, ne_eq, reduceCtorEq, not_false_eq_true, true_and]
+        constructor
+        · rintro ⟨ho, hs⟩
+          refine Or.inr ⟨⟨ho, hs⟩, ?_⟩
+          rintro _ rfl
+          by_cases hp : H.present q = true
+          · left
+            have : H.owner k' = some q := by
+              by_cases e : H.owner k' = some q
+              · exact e
+              · exact absurd ⟨hp, e⟩ hacc
+            rw [ho] at this; exact (Option.some.inj this).symm
+          · right; simpa using hp
+        · rintro (⟨rfl, _, hp, ho⟩ | ⟨h, _⟩)
+          · exact absurd ⟨hp, ho⟩ hacc
+          · exact h
+    · have hk' : ¬ (k = k') := fun e => hk e.symm
+      have hne : ∀ q', Op.alias q k' ≠ Op.alias q' k := fun q' e => hk (by injection e)
+      split
+      · simp only [hk', if_false, ne_eq, reduceCtorEq, not_false_eq_true, true_and]
+        constructor
+        · intro h; exact Or.inr ⟨h, fun q' e => absurd e (hne q')⟩
+        · rintro (⟨e, _⟩ | ⟨h, _⟩)
+          · exact absurd e (hne p)
+          · exact h
+      · simp only [ne_eq, reduceCtorEq, not_false_eq_true, true_and]
+        constructor
+        · intro h; exact Or.inr ⟨h, fun q' e => absurd e (hne q')⟩
+        · rintro (⟨e, _⟩ | ⟨h, _⟩)
+          · exact absurd e (hne p)
+          · exact h
+  | remove q =>
+    simp only [Hist.step, reduceCtorEq, false_and, false_or, ne_eq, Op.remove.injEq, false_implies, implies_true, and_true]
+    by_cases ho : H.owner k = some q
+    · simp only [ho, if_true, reduceCtorEq, false_and, Option.some.injEq, false_iff, not_and]
+      rintro ⟨e, _⟩ h; exact h e
+    · simp only [ho, if_false]
+      constructor
+      · rintro ⟨h1, h2⟩
+        exact ⟨⟨h1, h2⟩, fun e => ho (e ▸ h1)⟩
+      · rintro ⟨h, _⟩; exact h
+  | insert q t => simp [Hist.step]
+  | get q => simp [Hist.step]
+  | getBy q => simp [Hist.step]
+  | keyFor q => simp [Hist.step]
+  | aliasesFor q => simp [Hist.step]
+  | len => simp [Hist.step]
+  | broadcast a b c => simp [Hist.step]
+
+/-- **The history reading is the declarative one.** -/
+theorem owner_since_iff (h : List Op) (k : Key) (p n : Nat) :
+    ((Hist.of h).owner k = some p ∧ (Hist.of h).since k = n) ↔ AssignedSince h k p n := by
+  induction h using snoc_ind generalizing p n with
+  | nil =>
+    constructor
+    · rintro ⟨h, _⟩; cases h
+    · rintro ⟨h1, h2, e, _⟩; cases h1 <;> simp at e
+  | snoc l a ih =>
+    rw [Hist.of_snoc, Hist.step_owner_since, assignedSince_snoc, ih, Hist.of_n]
+
+/-- `p` is present after `h` iff some call inserted it and no later call removed it. -/
+theorem present_iff_inserted_not_removed (h : List Op) (p : Nat) :
+    (Hist.of h).present p = true ↔
+      ∃ h1 t h2, h = h1 ++ Op.insert p t :: h2 ∧ ∀ op ∈ h2, op ≠ Op.remove p := by
+  induction h using snoc_ind with
+  | nil =>
+    constructor
+    · intro h; cases h
+    · rintro ⟨h1, t, h2, e, _⟩; cases h1 <;> simp at e
+  | snoc l a ih =>
+    rw [Hist.of_snoc]
+    have ext : (∃ h1 t h2, l ++ [a] = h1 ++ Op.insert p t :: h2 ∧ ∀ op ∈ h2, op ≠ Op.remove p) ↔
+        (∃ t, a = Op.insert p t) ∨ ((∃ h1 t h2, l = h1 ++ Op.insert p t :: h2 ∧ ∀ op ∈ h2, op ≠ Op.remove p) ∧
+          a ≠ Op.remove p) := by
+      constructor
+      · rintro ⟨h1, t, h2, e, hrm⟩
+        rcases snoc_eq_append_cons e with ⟨rfl, rfl, hx⟩ | ⟨h2', rfl, rfl⟩
+        · exact Or.inl ⟨t, hx.symm⟩
+        · exact Or.inr ⟨⟨h1, t, h2', rfl, fun o ho => hrm o (by simp [ho])⟩, hrm a (by simp)⟩
+      · rintro (⟨t, rfl⟩ | ⟨⟨h1, t, h2, rfl, hrm⟩, hne⟩)
+        · exact ⟨l, t, [], by simp, by simp⟩
+        · refine ⟨h1, t, h2 ++ [a], by simp, ?_⟩
+          intro o ho
+          rcases List.mem_append.1 ho with ho | ho
+          · exact hrm o ho
+          · simp at ho; rw [ho]; exact hne
+    rw [ext, ← ih]
+    cases a with
+    | insert q t =>
+      simp only [Hist.step, Bool.or_eq_true, decide_eq_true_eq, Op.insert.injEq, ne_eq, reduceCtorEq,
+        not_false_eq_true, and_true]
+      constructor
+      · rintro (rfl | h)
+        · exact Or.inl ⟨t, rfl, rfl⟩
+        · exact Or.inr h
+      · rintro (⟨_, rfl, _⟩ | h)
+        · exact Or.inl rfl
+        · exact Or.inr h
+    | remove q =>
+      simp only [Hist.step, Bool.and_eq_true, Bool.not_eq_true', decide_eq_false_iff_not, reduceCtorEq,
+        exists_false, false_or, ne_eq, Op.remove.injEq]
+      constructor
+      · rintro ⟨hne, h⟩; exact ⟨h, fun e => hne e.symm⟩
+      · rintro ⟨h, hne⟩; exact ⟨fun e => hne e.symm, h⟩
+    | alias q k => simp only [Hist.step]; split <;> simp
+    | get q => simp [Hist.step]
+    | getBy q => simp [Hist.step]
+    | keyFor q => simp [Hist.step]
+    | aliasesFor q => simp [Hist.step]
+    | len => simp [Hist.step]
+    | broadcast a b c => simp [Hist.step]
+
+/-! ### interface lemmas (used by other properties' models that run on top of the registry, e.g. C15)
+
+Stable names; everything another model needs in order to reason about one peer while arbitrary calls
+about other peers interleave. -/
+
+theorem present_eq_lookup (s : State) (id : Nat) : s.present id = (lookup id s.peers).isSome := rfl
+
+theorem get_eq_some_iff (s : State) (id t : Nat) : get s id = some ⟨id, t⟩ ↔ lookup id s.peers = some t := by
+  unfold get; cases lookup id s.peers <;> simp
+
+theorem get_eq_none_iff (s : State) (id : Nat) : get s id = none ↔ lookup id s.peers = none := by
+  unfold get; cases lookup id s.peers <;> simp
+
+theorem get_id (s : State) (id : Nat) (h : Handle) (e : get s id = some h) : h.id = id := by
+  unfold get at e; cases hl : lookup id s.peers <;> simp [hl] at e; rw [← e]
+
+theorem getBy_of_alias {s : State} {k : Key} {id t : Nat} (ha : lookup k s.aliases = some id)
+    (hp : lookup id s.peers = some t) : getBy s k = some ⟨id, t⟩ := by
+  simp [getBy, ha, get, hp]
+
+/-- An absent peer owns nothing and no key resolves to it. -/
+theorem absent_owns_nothing {s : State} (hI : Inv s) {id : Nat} (h : lookup id s.peers = none) :
+    get s id = none ∧ aliasesFor s id = [] ∧ ∀ k t, getBy s k ≠ some ⟨id, t⟩ := by
+  have hp : s.present id = false := by simp [State.present, h]
+  have hno := hI.owners id hp
+  refine ⟨(get_eq_none_iff s id).2 h, hno, fun k t => ?_⟩
+  unfold getBy
+  cases hl : lookup k s.aliases with
+  | none => simp
+  | some q =>
+    by_cases hq : q = id
+    · subst hq
+      have := (hI.fwd k q).1 hl
+      rw [hno] at this; cases this
+    · simp only [get]
+      cases lookup q s.peers with
+      | none => simp
+      | some t' => simp [hq]
+
+theorem insert_peers (s : State) (id tag : Nat) : (insert s id tag).peers = put id tag s.peers := rfl
+
+theorem remove_peers (s : State) (id : Nat) : (remove s id).1.peers = erase id s.peers := by
+  unfold remove; cases lookup id s.index <;> rfl
+
+theorem alias_peers (s : State) (id : Nat) (k : Key) : (alias s id k).1.peers = s.peers := by
+  unfold alias
+  split
+  · rfl
+  · split
+    · split <;> rfl
+    · rfl
+
+/-- Calls that are not about peer `id` and do not re-point any of `keys`. -/
+def Op.ForeignTo (id : Nat) (keys : List Key) : Op → Prop
+  | .insert q _ => q ≠ id
+  | .remove q => q ≠ id
+  | .alias q k => q ≠ id ∧ k ∉ keys
+  | _ => True
+
+/-- **Frame.** A call that is foreign to peer `id` and its `keys` leaves `id`'s handle, and every one
+of `keys` that resolves to `id`, exactly as they were. -/
+theorem step_foreign_frame (answer : Handle → SendResult) {s : State} (hI : Inv s) {id : Nat}
+    {keys : List Key} (op : Op) (hf : op.ForeignTo id keys) :
+    lookup id (step answer s op).1.peers = lookup id s.peers ∧
+    ∀ k ∈ keys, lookup k s.aliases = some id → lookup k (step answer s op).1.aliases = some id := by
+  cases op with
+  | insert q t =>
+    simp only [Op.ForeignTo] at hf
+    exact ⟨by simp [step, insert, lookup_put, hf], fun k _ h => h⟩
+  | remove q =>
+    simp only [Op.ForeignTo] at hf
+    obtain ⟨_, hpeers, hA, _⟩ := remove_eqs hI q
+    refine ⟨by simp [step, hpeers, lookup_erase, hf], fun k _ h => ?_⟩
+    have : ¬ (id = q) := fun e => hf e.symm
+    simp [step, hA, h, this]
+  | alias q k' =>
+    simp only [Op.ForeignTo] at hf
+    refine ⟨by simp [step, alias_peers], fun k hk h => ?_⟩
+    cases hq : s.present q with
+    | false => simpa [step, alias_absent s q k' hq] using h
+    | true =>
+      obtain ⟨_, _, hA, _⟩ := alias_present hI k' hq
+      have : ¬ (k' = k) := fun e => hf.2 (e ▸ hk)
+      simp [step, hA, this, h]
+  | get _ => exact ⟨rfl, fun _ _ h => h⟩
+  | getBy _ => exact ⟨rfl, fun _ _ h => h⟩
+  | keyFor _ => exact ⟨rfl, fun _ _ h => h⟩
+  | aliasesFor _ => exact ⟨rfl, fun _ _ h => h⟩
+  | len => exact ⟨rfl, fun _ _ h => h⟩
+  | broadcast _ _ _ => exact ⟨rfl, fun _ _ h => h⟩
+
+/-- A state some history reaches from the empty registry. -/
+def Reachable (s : State) : Prop := ∃ (answer : Handle → SendResult) (h : List Op), s = (run answer State.empty h).1
+
+theorem inv_of_reachable {s : State} (h : Reachable s) : Inv s := by
+  obtain ⟨answer, ops, rfl⟩ := h; exact inv_run answer inv_empty ops
+
+theorem reachable_empty : Reachable State.empty := ⟨fun _ => .ok, [], rfl⟩
+
+theorem run_append (answer : Handle → SendResult) (s : State) (a b : List Op) :
+    (run answer s (a ++ b)).1 = (run answer (run answer s a).1 b).1 := by
+  induction a generalizing s with
+  | nil => rfl
+  | cons op a ih => simp only [List.cons_append, run]; exact ih _
+
+theorem reachable_run (answer : Handle → SendResult) {s : State} (h : Reachable s) (ops : List Op) :
+    Reachable (run answer s ops).1 := by
+  -- sinks' answers do not influence the state
+  have hst : ∀ (a b : Handle → SendResult) (s : State) (ops : List Op), (run a s ops).1 = (run b s ops).1 := by
+    intro a b s ops
+    induction ops generalizing s with
+    | nil => rfl
+    | cons op ops ih =>
+      have : (step a s op).1 = (step b s op).1 := by cases op <;> rfl
+      simp only [run, this]; exact ih _
+  obtain ⟨a0, h0, rfl⟩ := h
+  exact ⟨answer, h0 ++ ops, by rw [run_append, hst a0 answer State.empty h0]⟩
+
+theorem inv_after (h : List Op) : Inv (after h) := inv_run _ inv_empty h
+
+/-! ### the `insert` contract (ids unique within one registry) and id minting -/
+
+/-- Every `insert` of the history hits an id that is absent at that moment. -/
+def ContractOk (answer : Handle → SendResult) : State → List Op → Prop
+  | _, [] => True
+  | s, op :: r => (∀ id t, op = Op.insert id t → s.present id = false) ∧
+                  ContractOk answer (step answer s op).1 r
+
+def insertedIds : List Op → List Nat
+  | [] => []
+  | .insert id _ :: r => id :: insertedIds r
+  | _ :: r => insertedIds r
+
+theorem present_after_step (answer : Handle → SendResult) (s : State) (op : Op) (q : Nat)
+    (h : (step answer s op).1.present q = true) : s.present q = true ∨ ∃ t, op = Op.insert q t := by
+  cases op with
+  | insert id t =>
+    simp only [step, State.present, insert_peers, lookup_put] at h
+    by_cases e : id = q
+    · subst e; exact Or.inr ⟨t, rfl⟩
+    · simp only [e, if_false] at h; exact Or.inl h
+  | remove id =>
+    simp only [step, State.present, remove_peers, lookup_erase] at h
+    by_cases e : id = q
+    · simp [e] at h
+    · simp only [e, if_false] at h; exact Or.inl h
+  | alias id k => simp only [step, State.present, alias_peers] at h; exact Or.inl h
+  | get _ => exact Or.inl h
+  | getBy _ => exact Or.inl h
+  | keyFor _ => exact Or.inl h
+  | aliasesFor _ => exact Or.inl h
+  | len => exact Or.inl h
+  | broadcast _ _ _ => exact Or.inl h
+
+/-- If the ids a history inserts are pairwise distinct and none of them is present at the start, every
+insert hits an absent id: the documented contract holds and `insert`'s `debug_assert!` never fires. -/
+theorem distinct_fresh_inserts_respect_contract (answer : Handle → SendResult) (s : State) (h : List Op)
+    (hnd : (insertedIds h).Nodup) (hfresh : ∀ id ∈ insertedIds h, s.present id = false) :
+    ContractOk answer s h := by
+  induction h generalizing s with
+  | nil => trivial
+  | cons op r ih =>
+    cases op with
+    | insert id t =>
+      simp only [insertedIds, List.nodup_cons] at hnd
+      refine ⟨fun id' t' e => by injection e with e1 _; subst e1; exact hfresh id (by simp [insertedIds]), ?_⟩
+      apply ih _ hnd.2
+      intro q hq
+      cases hp : (step answer s (Op.insert id t)).1.present q with
+      | false => rfl
+      | true =>
+        rcases present_after_step answer s _ q hp with h1 | ⟨t', e⟩
+        · rw [hfresh q (by simp [insertedIds, hq])] at h1; cases h1
+        · injection e with e1 _; subst e1; exact absurd hq hnd.1
+    | remove id =>
+      refine ⟨(fun _ _ e => by cases e), ih _ hnd (fun q hq => ?_)⟩
+      cases hp : (step answer s (Op.remove id)).1.present q with
+      | false => rfl
+      | true =>
+        rcases present_after_step answer s _ q hp with h1 | ⟨t', e⟩
+        · rw [hfresh q hq] at h1; cases h1
+        · cases e
+    | alias id k =>
+      refine ⟨(fun _ _ e => by cases e), ih _ hnd (fun q hq => ?_)⟩
+      cases hp : (step answer s (Op.alias id k)).1.present q with
+      | false => rfl
+      | true =>
+        rcases present_after_step answer s _ q hp with h1 | ⟨t', e⟩
+        · rw [hfresh q hq] at h1; cases h1
+        · cases e
+    | get _ => exact ⟨(fun _ _ e => by cases e), ih _ hnd hfresh⟩
+    | getBy _ => exact ⟨(fun _ _ e => by cases e), ih _ hnd hfresh⟩
+    | keyFor _ => exact ⟨(fun _ _ e => by cases e), ih _ hnd hfresh⟩
+    | aliasesFor _ => exact ⟨(fun _ _ e => by cases e), ih _ hnd hfresh⟩
+    | len => exact ⟨(fun _ _ e => by cases e), ih _ hnd hfresh⟩
+    | broadcast _ _ _ => exact ⟨(fun _ _ e => by cases e), ih _ hnd hfresh⟩
+
+/-- Under the contract no `insert` of the history trips the `debug_assert!`. -/
+theorem contract_no_panic (answer : Handle → SendResult) (s : State) (op : Op) (r : List Op)
+    (h : ContractOk answer s (op :: r)) (id t : Nat) (e : op = Op.insert id t) (dbg : Bool) :
+    insertPanics s id dbg = false := by
+  simp [insertPanics, h.1 id t e]
+
+theorem mintN_eq_range (c n : Nat) (h : c + n ≤ U64) : mintN c n = List.range' c n := by
+  induction n generalizing c with
+  | zero => rfl
+  | succ n ih =>
+    simp only [mintN, nextPeerId, List.range'_succ]
+    cases n with
+    | zero => rfl
+    | succ m =>
+      have : (c + 1) % U64 = c + 1 := Nat.mod_eq_of_lt (by omega)
+      rw [this, ih (c + 1) (by omega)]
+
+/-- Fewer than 2^64 mints from one shared counter never repeat an id. -/
+theorem mintN_nodup (c n : Nat) (h : c + n ≤ U64) : (mintN c n).Nodup := by
+  rw [mintN_eq_range c n h]; exact List.nodup_range'
+
+theorem length_erase_of_lookup {l : List (Nat × Nat)} (hnd : (l.map (·.1)).Nodup) {id t : Nat}
+    (h : lookup id l = some t) : (erase id l).length + 1 = l.length := by
+  induction l with
+  | nil => simp at h
+  | cons e l ih =>
+    obtain ⟨a, b⟩ := e
+    simp only [List.map_cons, List.nodup_cons] at hnd
+    rw [lookup_cons] at h
+    by_cases ha : a = id
+    · subst ha
+      have : erase a l = l := by
+        unfold erase; rw [List.filter_eq_self]
+        intro x hx
+        have : x.1 ≠ a := fun e => hnd.1 (e ▸ List.mem_map.2 ⟨x, hx, rfl⟩)
+        simp [this]
+      have h1 : erase a ((a, b) :: l) = erase a l := by simp [erase]
+      rw [h1, this]; simp
+    · simp only [ha, if_false] at h
+      have := ih hnd.2 h
+      simp only [erase, List.filter_cons, ha, decide_false, Bool.not_false, if_true, List.length_cons] at this ⊢
+      omega
+
+/-- **Outside the contract** (`insert` of a present id): the handle is replaced, nothing else changes —
+the new handle inherits every alias of the old one and the number of peers stays the same. -/
+theorem reinsert_present {s : State} (hI : Inv s) {id t0 : Nat} (hp : lookup id s.peers = some t0) (t : Nat) :
+    get (insert s id t) id = some ⟨id, t⟩ ∧
+    (∀ q, q ≠ id → get (insert s id t) q = get s q) ∧
+    (∀ q, aliasesFor (insert s id t) q = aliasesFor s q) ∧
+    (∀ k, lookup k (insert s id t).aliases = lookup k s.aliases) ∧
+    len (insert s id t) = len s ∧
+    (∀ k ∈ aliasesFor s id, getBy (insert s id t) k = some ⟨id, t⟩) := by
+  refine ⟨by simp [get, insert, lookup_put], fun q hq => ?_, fun _ => rfl, fun _ => rfl, ?_, fun k hk => ?_⟩
+  · simp [get, insert, lookup_put, Ne.symm hq]
+  · simp only [len, insert, put, List.length_cons]
+    exact length_erase_of_lookup hI.nodup hp
+  · have := (hI.fwd k id).2 hk
+    simp [getBy, insert, this, get, lookup_put]
+
 /-! ### interleavings of thread programs -/
 
 /-- `Merge ts m`: `m` is an interleaving of the thread programs `ts` (each thread's calls in order). -/
